@@ -2,6 +2,7 @@ package gen
 
 import (
 	"math/rand/v2"
+	"regexp"
 	"strconv"
 	"strings"
 )
@@ -99,7 +100,7 @@ func doc(r *rand.Rand, c DocCfg, depth int, sb *strings.Builder) {
 	}
 }
 
-var docBigNums = []string{"9007199254740993", "9007199254740992", "9007199254740992.0", "9223372036854775807", "-9223372036854775808", "9223372036854775808", "2147483648", "1e19", "123456789012345678901234567890", "0." + strings.Repeat("0", 30) + "1"}
+var docBigNums = []string{"9007199254740993", "9007199254740992", "9007199254740992.0", "9223372036854775807", "-9223372036854775808", "9223372036854775808", "2147483648", "1e19", "123456789012345678901234567890", "0." + strings.Repeat("0", 30) + "1", "1e308", "-1e308", "1.7976931348623157e308", "1e-320"}
 
 // Trees enumerates all JSON documents (as text) with at most maxNodes nodes
 // over the given leaf alphabet and object keys. A node is a scalar, an array
@@ -189,4 +190,19 @@ func subsets(keys []string, k int) [][]string {
 	}
 	rec(0, nil)
 	return out
+}
+
+var numTok = regexp.MustCompile(`(^|[\[,:])(-?[0-9][0-9.eE+-]*)`)
+
+// InjectHuge replaces one number of the document text by a number outside
+// the float64 range (only a UseNumber decode can represent it). Returns the
+// text unchanged if it has no number.
+func InjectHuge(r *rand.Rand, doc string) string {
+	locs := numTok.FindAllStringSubmatchIndex(doc, -1)
+	if len(locs) == 0 {
+		return doc
+	}
+	l := locs[r.IntN(len(locs))]
+	huge := []string{"1e400", "-1e400", "1e999", "1e-400"}[r.IntN(4)]
+	return doc[:l[4]] + huge + doc[l[5]:]
 }
